@@ -293,6 +293,9 @@ def run(ctx) -> str:
     ctx.guarded("R5-fastpath", lambda: (c05._cache.clear(), c05.rule_r3(ctx)))
     ctx.guarded("R5-declparams", lambda: c05.rule_r9(ctx, "R5"))
     ctx.guarded("R5-loopbounds", lambda: c05.rule_r11(ctx))
+    from . import c03
+
+    ctx.guarded("R6-mexpr-placeholder", lambda: c03.rule_e10(ctx, "R6"))
     ctx.guarded("inventory", lambda: inventory_raises(ctx))
     ctx.assume("constraint in the supported fragment; asserts are developer contracts")
     ctx.assume("call-graph resolution is name based (over-approximate reachability)")
